@@ -421,6 +421,6 @@ func init() {
 		Real:        []string{"smtp.Server.Serve/handleConn", "smtp.Conn.handleBdat and delivery goroutine", "lineLimitReader", "io.Pipe", "net/textproto", "bufio"},
 		Stub:        []string{"net.Listener (SimListener)", "net.Conn (SimConn)", "Backend/Session/LMTPSession (SimBackend)", "clock (synctest)", "SMTP client (raw driver)"},
 		Assumptions: []string{"a BDAT without a usable size declares nothing to skip: no payload is sent after it and only its single reply and the next marker are judged", "refusal replies are judged to be 5xx, not for their exact code"},
-		QuickRuns:   60000, ThoroughRuns: 2000000,
+		QuickRuns:   120000, ThoroughRuns: 3000000,
 	})
 }
